@@ -181,7 +181,7 @@ def build_targets(entries, excluded_fns=()):
             continue
         cls, meth = name.split(".", 1)
         if cls in NET_CLASSES:
-            where = (lambda c: (lambda net: net if type(net).__name__ == c else None))(cls)
+            where = (lambda c: (lambda net: net if L.base_class_name(net) == c else None))(cls)
         elif cls.endswith("View") and cls in concrete:
             where = (lambda c: (lambda net: net.nodes if type(net.nodes).__name__ == c else (net.edges if type(net.edges).__name__ == c else None)))(cls)
         elif cls.endswith("Stat"):
@@ -490,6 +490,39 @@ def no_network():
         socket.socket.connect, socket.create_connection = saved
 
 
+def networks_of(x, _d=0):
+    """the networks an argument value carries: a network itself, the network behind a view / stat object, networks inside
+    lists / tuples / dicts of such (second operand of `<<`, views handed to set operators and from_view, collections of networks)"""
+    out = []
+    if isinstance(x, L.NETS):
+        return [x]
+    if _d > 2:
+        return out
+    for attr in ("_net", "net"):
+        n = getattr(x, attr, None) if not isinstance(x, (dict, list, tuple, set, str, bytes)) else None
+        if isinstance(n, L.NETS):
+            out.append(n)
+    if isinstance(x, (list, tuple)):
+        for y in x[:8]:
+            out += networks_of(y, _d + 1)
+    elif isinstance(x, dict):
+        for y in list(x.values())[:8]:
+            out += networks_of(y, _d + 1)
+    return out
+
+
+def fresh_fields(net, _cache={}):
+    """the fields a newly constructed network of this class has: a difference in any OTHER private field is not one of the
+    components the statement lists (nodes, edges, members, iteration order, attributes, next ID) - recorded as an observation"""
+    k = type(net)
+    if k not in _cache:
+        try:
+            _cache[k] = set(vars(k()))
+        except Exception:  # noqa
+            _cache[k] = set(vars(net))
+    return _cache[k]
+
+
 def check_call(ctx, t, subj, args, kwargs, env, record=True):
     """perform one call and evaluate the predicate.  Returns (ok_call, exception text, violations)"""
     net = subj.net
@@ -500,6 +533,7 @@ def check_call(ctx, t, subj, args, kwargs, env, record=True):
     exc = None
     ret = None
     cwd = os.getcwd()
+    others = []                                         # every OTHER network-valued argument: (where, network, snapshot before)
     try:
         f = t.bind(obj)
         env["pname"], env["kwargs"] = "", kwargs
@@ -508,6 +542,10 @@ def check_call(ctx, t, subj, args, kwargs, env, record=True):
         for k, v in kwargs.items():
             env["pname"] = k
             kw[k] = L.resolve(v, net, env)
+        for where, val in [(f"positional argument {i + 1}", x) for i, x in enumerate(a)] + [(f"argument {k}", x) for k, x in kw.items()]:
+            for n2 in networks_of(val):
+                if n2 is not net and not any(n2 is o[1] for o in others):
+                    others.append((where, n2, L.snapshot(n2, public_uid=False)))
         with warnings.catch_warnings(), contextlib.redirect_stdout(io.StringIO()), contextlib.redirect_stderr(io.StringIO()):
             warnings.simplefilter("ignore")
             if t.probe:
@@ -525,9 +563,39 @@ def check_call(ctx, t, subj, args, kwargs, env, record=True):
         if t.heavy or "draw" in t.site:
             import matplotlib.pyplot as plt
             plt.close("all")
+    if env.get("want_image"):
+        try:
+            env["image"] = L.image(ret) if exc is None else ("raised", exc.split(":")[0])
+        except Exception:  # noqa
+            env["image"] = L.UNSTABLE
     ctx.stats["snapshots"] += 1
     after = L.snapshot(net, public_uid=ctx.stats["snapshots"] % 4 == 0)
     d = L.diff(subj.before, after)
+    # a private field that a newly constructed network does not have (a cache a function keeps on its argument) is none of the
+    # components of the statement: observation, as long as nothing else changed (a memo in _net_attr IS an attribute change)
+    extra = [x for x in d if x[0] == "private-state" and L.private_field(x[1]) not in fresh_fields(net)
+             and L.private_field(x[1]) not in subj.before["_raw"]]
+    if extra:
+        d = [x for x in d if x not in extra]
+        for cls, detail in extra:
+            ctx.stats["observation:new-private-field"] += 1
+            ctx.extra.setdefault("new_private_fields_observed", {}).setdefault(f"{t.vsite} [{L.private_field(detail)}]", detail[:200])
+        try:
+            for k in [k for k in vars(net) if k not in fresh_fields(net) and k not in subj.before["_raw"]]:
+                del vars(net)[k]
+        except Exception:  # noqa
+            subj.rebuild()
+    for where, n2, b2 in others:
+        ctx.stats["snapshots:other-network-arguments"] += 1
+        try:
+            d2o = L.diff(b2, L.snapshot(n2, public_uid=False))
+        except Exception as ex:  # noqa
+            d2o = [("unreadable", f"the network can no longer be read ({type(ex).__name__}: {str(ex)[:80]})")]
+        for cls, detail in d2o:
+            if cls == "private-state" and L.private_field(detail) not in fresh_fields(n2) and L.private_field(detail) not in b2["_raw"]:
+                continue
+            viol.append(("other-argument-" + cls, f"{t.site}(args={args}, kwargs={kwargs}) on {subj.spec['label']} "
+                                                  f"{'raised ' + exc if exc else 'returned'} and changed the network given as {where}: {detail}"))
     if d:
         for cls, detail in d:
             viol.append((cls, f"{t.site}(args={args}, kwargs={kwargs}) on {subj.spec['label']} "
@@ -612,6 +680,119 @@ def check_call(ctx, t, subj, args, kwargs, env, record=True):
 
 
 # ----------------------------------------------------------------------------- oracle self-test
+
+def spec2_for(specs, sp):
+    """the second operand / second view handed to binary operations: a network of the same kind as the first"""
+    return next(s for s in specs if s["label"] == ("dh-nice" if sp["cls"] in ("DiHypergraph", "MyD") else "hg-gaps"))
+
+
+def held_family(ctx, targets, specs, env, seconds, only=None):
+    """STATE ACROSS CALLS: the same network OBJECT is handed to the same callable several times - same arguments, then another
+    option tuple - with a count-preserving edit and an ordinary edit of the network in between.  Every call is judged by the
+    before/after comparison (a memo written on the first call and served on the second shows here or in the private-field
+    observation); and the result of the call after the edit must equal the result of the same call on a FRESHLY BUILT
+    network that received the same edits (a value remembered from before the edit does not) - compared only when the callable is
+    deterministic on two fresh builds and its result has a portable image."""
+    t0 = time.time()
+    labels = ("hg-messy", "hg-gaps", "sc", "dh-nice", "sub-hg", "hg-tuple")
+    chosen = [sp for sp in specs if sp["label"] in labels and not sp["frozen"]] if only is None else [only]
+    pool = [t for t in targets if t.kind in ("function", "method", "property") and not t.heavy and t.accepted and t.params is not None]
+    start = ctx.rng.randrange(len(pool)) if pool and only is None else 0
+    pool = pool[start:] + pool[:start]
+    rot = Rotation()
+
+    def fresh_after(sp, edits):
+        H, _ = L.build(sp)
+        for k in edits:
+            L.edit_network(H, k)
+        return H
+
+    def result_on(t, H, args, kwargs):
+        obj = t.where(H)
+        if obj is None:
+            return L.UNSTABLE
+        try:
+            env["pname"], env["kwargs"], env["domain"] = "", kwargs, t.domain
+            a = [obj if x == "$self" else L.resolve(x, H, env) for x in args]
+            kw = {}
+            for k, v in kwargs.items():
+                env["pname"] = k
+                kw[k] = L.resolve(v, H, env)
+            with warnings.catch_warnings(), contextlib.redirect_stdout(io.StringIO()), contextlib.redirect_stderr(io.StringIO()):
+                warnings.simplefilter("ignore")
+                return L.image(drain(L.with_timeout(lambda: t.bind(obj)(*a, **kw), 3)))
+        except Exception as ex:  # noqa
+            return ("raised", type(ex).__name__)
+
+    for t in pool:
+        for sp in chosen:
+            if time.time() - t0 > seconds:
+                ctx.stats["held:stopped-for-time"] += 1
+                return
+            subj = Subject(sp)
+            if t.where(subj.net) is None:
+                continue
+            env["spec2"] = spec2_for(specs, sp)
+            try:
+                calls = plan_calls(t, subj.net, rot, ctx.rng, 1, env, max_opt=2, combos=0, allfirst=False)
+            except Exception:  # noqa
+                continue
+            if not calls:
+                continue
+            (a0, k0, _), other = calls[0], (calls[1] if len(calls) > 1 else calls[0])
+            if any(p.name == "seed" for p in t.params) and "seed" not in k0:
+                k0 = dict(k0, seed=0)                  # randomised callables are compared under a fixed seed only
+            done = []
+            ok1, _, v1 = check_call(ctx, t, subj, a0, k0, env)
+            ctx.stats["held:calls"] += 1
+            if not ok1 or v1:
+                continue
+            for kind in ("cpe", "plain"):
+                if not L.edit_network(subj.net, kind):
+                    continue
+                done.append(kind)
+                subj.before = L.snapshot(subj.net)
+                subj._internal = None
+                env["want_image"] = True
+                net0 = subj.net
+                ok2, _, v2 = check_call(ctx, t, subj, a0, k0, env)
+                img = env.pop("image", L.UNSTABLE)
+                env.pop("want_image", None)
+                if subj.net is not net0:               # the subject was rebuilt (its result was written to): edits again, no comparison
+                    for k in done:
+                        L.edit_network(subj.net, k)
+                    subj.before = L.snapshot(subj.net)
+                    subj._internal = None
+                    img = L.UNSTABLE
+                ctx.stats["held:calls"] += 1
+                ctx.stats["held:sequences:" + kind] += 1
+                if v2:
+                    break
+                if ok2 and not L.has_unstable(img):
+                    r1, r2 = result_on(t, fresh_after(sp, done), a0, k0), result_on(t, fresh_after(sp, done), a0, k0)
+                    if r1 == r2 and not L.has_unstable(r1):
+                        ctx.stats["held:results-compared-with-fresh-computation"] += 1
+                        # confirmed on a third fresh build and a second call on the held object (a callable that is random
+                        # without a seed parameter may agree twice by chance)
+                        if img != r1 and result_on(t, fresh_after(sp, done), a0, k0) == r1 and result_on(t, subj.net, a0, k0) == img:
+                            pth, x, y = L.first_difference(r1, img)
+                            ctx.violation(t.vsite, "stale-result-on-held-network",
+                                          {"site": t.site, "network": sp, "args": a0, "kwargs": k0, "stat": t.extra.get("stat"),
+                                           "sequence": ["call", *done, "call"]},
+                                          detail=f"{t.site}(args={a0}, kwargs={k0}) on {sp['label']}: called, network edited ({'; '.join(done)}), called "
+                                                 f"again on the same object: the result differs from the same call on a freshly built network with the "
+                                                 f"same edits at {pth}: fresh {x} / held {y}")
+                            break
+                if subj.before is None or v2:
+                    break
+                a1, k1, _ = other
+                ok3, _, v3 = check_call(ctx, t, subj, a1, k1, env)
+                ctx.stats["held:calls"] += 1
+                if v3:
+                    break
+                if subj.net.is_frozen:
+                    break
+
 
 def oracle_selftest(ctx):
     """the snapshot comparer must see each kind of change (else the check proves nothing): returns problems"""
@@ -851,6 +1032,11 @@ def run_case(ctx, targets, case, env):
     subj = Subject(case["network"])
     if t.where(subj.net) is None:
         return None
+    if case.get("sequence"):                           # a replay of the held-object family: the whole sequence again
+        n0 = len(ctx.violations)
+        held_family(ctx, [t], L.fixed_specs(), env, 120, only=case["network"])
+        new = ctx.violations[n0:]
+        return True, None, [(v["failure_class"], v["detail"]) for v in new]
     return check_call(ctx, t, subj, case["args"], case["kwargs"], env)
 
 
@@ -891,7 +1077,7 @@ def sweep(ctx, targets, specs, rot, status, env, budget_end, note):
                     subj = subs[i]
                     if t.where(subj.net) is None:
                         continue
-                    env["spec2"] = next(s for s in specs if s["label"] == ("dh-nice" if sp["cls"] == "DiHypergraph" else "hg-gaps"))
+                    env["spec2"] = spec2_for(specs, sp)
                     c = [v for v in (param_candidates(t, p, subj.net, env) or []) if not _is_default(v, p)]
                     req = p.default is inspect.Parameter.empty and p.kind != p.KEYWORD_ONLY
                     pool = c[1:] if req else c
@@ -953,7 +1139,7 @@ def mutator_crosscheck(ctx, mutators, specs, env):
             bind = (lambda f: (lambda net: (lambda *a, **k: f(net, *a, **k))))(fn)
         else:
             cls, meth = name.split(".", 1)
-            where = (lambda c: (lambda net: net if type(net).__name__ == c else None))(cls)
+            where = (lambda c: (lambda net: net if L.base_class_name(net) == c else None))(cls)
             bind = (lambda m: (lambda obj: getattr(obj, m)))(meth)
         ps = _params(fn, 1) if fn is not None else None
         t = Target(name, "declared-mutator", ps, "mutator", {}, where, bind, literals=_lits(fn))
@@ -1021,7 +1207,7 @@ def run(ctx, only_case=None):
             return 1 if r[2] else 0                    # a replay does not rewrite the evidence file
         for p in oracle_selftest(ctx):
             ctx.broken.append(p)
-        specs = L.fixed_specs() + [L.random_spec(ctx.rng, k) for k in range(ctx.n(6, 40))]
+        specs = L.fixed_specs() + L.family_specs(ctx.rng) + [L.random_spec(ctx.rng, k) for k in range(ctx.n(6, 40))]
         for c in load_corpus():
             run_case(ctx, targets, c, env)
             ctx.stats["corpus_cases"] += 1
@@ -1052,11 +1238,34 @@ def run(ctx, only_case=None):
 
         for si, sp in enumerate(specs):
             subj = Subject(sp)
-            env["spec2"] = next(s for s in specs if s["label"] == ("dh-nice" if sp["cls"] == "DiHypergraph" else "hg-gaps"))
+            env["spec2"] = spec2_for(specs, sp)
             full = si < 4 or thorough
-            for t in targets:
+            large = bool(sp.get("large"))
+            t_large = time.time()
+            off = ctx.rng.randrange(len(targets)) if large else 0      # a bounded share per run: start somewhere else every seed
+            for t in (targets[off:] + targets[:off]):
                 obj = t.where(subj.net)
                 if obj is None:
+                    continue
+                if large:
+                    # REGIME family: the functions and the methods / properties of the network classes, default arguments and one
+                    # variation, a short per-call limit; a bounded share of the run (what is skipped is counted)
+                    if t.kind not in ("function", "method", "property") or t.heavy or (t.probe and not t.accepted) or \
+                            t.site.split(".")[0].endswith(("View", "Stat")):
+                        continue
+                    if time.time() - t_large > ctx.n(4, 60):
+                        ctx.stats["regime:skipped-for-time"] += 1
+                        continue
+                    try:
+                        calls = plan_calls(t, subj.net, rot, ctx.rng, 1, env, max_opt=1, combos=0, allfirst=False)[:2]
+                    except Exception:  # noqa
+                        continue
+                    t = copy.copy(t)
+                    t.timeout = 2
+                    for args, kwargs, tags in calls:
+                        okc, exc, viol = check_call(ctx, t, subj, args, kwargs, env)
+                        ctx.stats["calls:regime"] += 1
+                        ctx.stats["calls:regime-completed"] += bool(okc)
                     continue
                 if t.probe and not t.accepted:
                     if sp["cls"] in t.probed or sp["frozen"]:
@@ -1097,9 +1306,10 @@ def run(ctx, only_case=None):
                         rot.completed(t, tags)
                 spent[t.site] += time.time() - tc
                 ctx.stats["ms:" + ("heavy" if t.heavy else t.kind)] += int(1000 * (time.time() - tc))
-        sweep(ctx, targets, specs, rot, status, env, budget_end, note)
+        sweep(ctx, targets, [sp for sp in specs if not sp.get("large")], rot, status, env, budget_end, note)
+        held_family(ctx, targets, specs, env, ctx.n(8, 120))
         mut = mutator_crosscheck(ctx, mutators, specs, env)
-        cspecs = list(specs)
+        cspecs = [sp for sp in specs if not sp.get("large")]
         if thorough:                                   # exhaustive small scope for the observer correspondence
             from ..fn import all_small_hypergraphs
             small = [L.spec("Hypergraph", [[n, {}] for n in ns], [[list(ms), e, {}] for e, ms in es], {}, label="small")
@@ -1214,6 +1424,12 @@ def run(ctx, only_case=None):
         "parameters documented as constructors (create_using) are factories, not input networks",
         "admissible argument values are sampled, not enumerated: literals of the body + name-based generators; combinations of "
         "optional parameters only at random",
+        "the Lean model and the observer correspondence cover xgi.Hypergraph with int/str/tuple IDs on small networks; the other classes, the "
+        "subclasses, the large and the tuple-labelled networks are judged by the before/after comparison only",
+        "network sizes: fixed and random networks have <= 7 nodes / <= 7 edges; three large networks (72 IDs, 198 edges of which 132 parallel, IDs above "
+        "2**53) are visited by functions and network methods with default arguments for a bounded time (regime:skipped-for-time counts what was left)",
+        "a private field that neither a new network of the class nor the argument before the call has is an observation (new_private_fields_observed), "
+        "not a violation",
     ]
     # verdict: findings already listed as known must not hide a broken obligation / correspondence
     fresh = [v for v in unlisted_violations(ctx) if v["kind"] == "concrete"]
